@@ -4,9 +4,9 @@
    src/naive_bayes/*.rs, src/math/vector.rs unique_with_indices and src/linalg/stats.rs mean/var),
    instantiated at the real numbers (`ROps`); the correspondence check ties the same model, instantiated
    at binary64, to the implementation.  Labels are arbitrary integers; all sizes are unbounded. *)
-From Coq Require Import List ZArith Bool Arith Reals Lra.
+From Coq Require Import List ZArith Bool Arith Reals Lra Permutation.
 From SC Require Import Base.Num C11.Model C11.ProofsLabels C11.ProofsCounts C11.ProofsStats
-     C11.ProofsStats2 C11.ProofsArgmax C11.ProofsPredict.
+     C11.ProofsStats2 C11.ProofsArgmax C11.ProofsPredict C11.ProofsBuilder.
 Import ListNotations.
 
 (* (1) label -> class-index mapping: the class list is strictly increasing (hence duplicate-free), contains
@@ -224,6 +224,37 @@ Theorem C11_categorical_bookkeeping : forall (to_cat : R -> option nat) (x : lis
     Rsum m.(k_priors) = 1%R.
 Proof. exact categorical_bookkeeping. Qed.
 
+(* (9) parameter builders (`XxxNBParameters::default().with_alpha(..).with_priors(..).with_binarize(..)`):
+   after any sequence of calls every field holds the value of the last call that set it, the
+   initial (default) value if no call set it — for any scalar type, any number of calls. *)
+Theorem C11_builder_last_call_wins : forall (T : Type) (d : @nbparams T) (steps : list (@bstep T)),
+  build_params d steps =
+  mkParams (match last_alpha None steps with Some a => a | None => np_alpha d end)
+           (match last_priors None steps with Some p => Some p | None => np_priors d end)
+           (match last_binarize None steps with Some b => Some b | None => np_binarize d end).
+Proof. intros T d steps. rewrite build_last_call_wins. reflexivity. Qed.
+
+(* hence the order of calls that set distinct fields is irrelevant: the parameters, and the model
+   fitted with them, are the same for every permutation of the calls ... *)
+Theorem C11_builder_order_irrelevant : forall (T : Type) (O : Ops T) (to_n : T -> option nat)
+    (d : @nbparams T) (steps steps' : list (@bstep T)) (x : list (list T)) (y : list Z),
+  NoDup (map kind steps) -> Permutation steps steps' ->
+  build_params d steps = build_params d steps' /\
+  gaussian_fit_with O (build_params d steps) x y = gaussian_fit_with O (build_params d steps') x y /\
+  multinomial_fit_with O to_n (build_params d steps) x y = multinomial_fit_with O to_n (build_params d steps') x y /\
+  bernoulli_fit_with O to_n (build_params d steps) x y = bernoulli_fit_with O to_n (build_params d steps') x y /\
+  categorical_fit_with O to_n (build_params d steps) x y = categorical_fit_with O to_n (build_params d steps') x y.
+Proof.
+  intros T O to_n d steps steps' x y Hnd Hperm.
+  rewrite (build_order_irrelevant d steps steps' Hnd Hperm). repeat split; reflexivity.
+Qed.
+
+(* ... and a call that is followed (anywhere later) by another call setting the same field has no effect. *)
+Theorem C11_builder_override : forall (T : Type) (d : @nbparams T) (l1 l2 l3 : list (@bstep T)) (s s' : @bstep T),
+  kind s = kind s' ->
+  build_params d (l1 ++ s :: l2 ++ s' :: l3) = build_params d (l1 ++ l2 ++ s' :: l3).
+Proof. exact (@build_override). Qed.
+
 (* ---------- the hypotheses are satisfiable (non-contiguous, unordered, negative labels) ---------- *)
 Example C11_labels_instance :
   unique_with_indices [7; -3; 7; 250; -3; 7]%Z = ([-3; 7; 250]%Z, [1; 0; 1; 2; 0; 1]) /\
@@ -274,3 +305,16 @@ Qed.
 Example C11_categorical_query_instance :
   forall row, In row [[1; 1]; [1; 1]]%R -> forall v, In v row -> (fun _ : R => Some 1) v <> None.
 Proof. intros row _ v _. discriminate. Qed.
+
+(* builder hypotheses: three calls setting three distinct fields, in two different orders *)
+Example C11_builder_instance :
+  NoDup (map kind [WithAlpha 3; WithPriors [1; 2]; WithBinarize 5]%R) /\
+  Permutation [WithAlpha 3; WithPriors [1; 2]; WithBinarize 5]%R [WithBinarize 5; WithAlpha 3; WithPriors [1; 2]]%R /\
+  build_params (bernoulli_default ROps) [WithBinarize 5; WithAlpha 3; WithPriors [1; 2]]%R
+  = mkParams 3%R (Some [1; 2]%R) (Some 5%R) /\
+  kind (WithAlpha 7%R) = kind (WithAlpha 3%R).
+Proof.
+  split; [|split; [|split; reflexivity]].
+  - cbn. repeat constructor; cbn; intuition discriminate.
+  - apply Permutation_sym. apply (Permutation_cons_app [WithAlpha 3%R; WithPriors [1%R; 2%R]] []). reflexivity.
+Qed.
